@@ -4,6 +4,7 @@ import (
 	"context"
 	_ "embed"
 	"errors"
+	"fmt"
 	"sync"
 
 	"github.com/jig/lisp/lib/call"
@@ -128,7 +129,18 @@ func NewFuture(ctx context.Context, fn MalFunc) *Future {
 	go func() {
 		defer func() { f.Done = true }()
 		verifAt("future.start", f)
-		res, err := Apply(ctx, fn, nil)
+		res, err := func() (res MalType, err error) {
+			defer func() {
+				if r := recover(); r != nil {
+					if rerr, ok := r.(error); ok {
+						err = rerr
+					} else {
+						err = fmt.Errorf("%v", r)
+					}
+				}
+			}()
+			return Apply(ctx, fn, nil)
+		}()
 		if err != nil {
 			f.ErrChan <- err
 			verifAt("future.delivered", f)
